@@ -224,7 +224,7 @@ class FCtx(object):
                 def fn(x):
                     if not lookup(x):
                         return None
-                    val = ("sub", init, x[2])
+                    val = ("call", ("attr", init[1][1], "group"), (x[2],), ())        # m.groupdict()["k"] is m.group("k")
                     handler = [i for i, g in enumerate(rg) if g[0][0] == "exc"]
                     for st in stores:
                         if st.seq >= reader.seq or st.target[2] != x[2]:
